@@ -15,7 +15,7 @@ def strip(s):
 
 def run(ctx):
     q = ctx.quick
-    c = dict(K=6, Types={"HC", "OR"}, Names={"x", "y"}, DevRefFromChild=False, DevAutoIdCollision=False, DevFollowDangling=False,
+    c = dict(K=6, Types={"HC", "OR"}, Names={"x", "y"}, DevRefFromChild=False, DevAutoIdCollision=False, DevChildResultIgnored=False,
              TRs={True, False}, Acts={"AddNode", "AddRef", "DelRef", "DelNode"}, MaxDepth=3 if q else 4)
     ctx.model_check("design", "MCNodeMgmt", dict(c, MaxDepth=4, TRs={True}), ["C34"], view="MView")
     ctx.model_check("dev_ref_from_child", "MCNodeMgmt", dict(c, DevRefFromChild=True), ["C34"], view="MView", expect_violation="C34")
@@ -23,8 +23,8 @@ def run(ctx):
     # deleting with and without the target references, re-creating nodes under references that were left behind
     cd = dict(c, K=3, Types={"HC"}, Names={"x"}, Acts={"AddNode", "DelNode"}, MaxDepth=4 if q else 5)
     ctx.model_check("design_delete", "MCNodeMgmt", dict(cd, MaxDepth=6), ["C34"], view="MView")
-    # (hypothetical departure, not one of the pinned tree: the aggregates of a node that no longer exists are followed)
-    ctx.model_check("dev_follow_dangling", "MCNodeMgmt", dict(cd, MaxDepth=6, DevFollowDangling=True), ["C34"], view="MView", expect_violation="C34")
+    # the departure that the fix removed: what was deleted below the given id did not count for the status
+    ctx.model_check("dev_child_result_ignored", "MCNodeMgmt", dict(cd, MaxDepth=6, DevChildResultIgnored=True), ["C34"], view="MView", expect_violation="C34")
     h, r = ctx.gen("sequences", "GenNodeMgmt", c if q else dict(c, TRs={True}))
     hs = take(h, 4000 if q else 60000, ctx.seed)
     h, r = ctx.gen("delete", "GenNodeMgmt", cd)
